@@ -102,6 +102,7 @@ pub fn probe_trace(tag: u8) -> Vec<Packet> {
         macs: 0,
         wire: 0,
         frag: 0,
+        ipopt: 0,
     };
     // connection after connection (no interleaving needed for a probe)
     t.per_conn().into_iter().flatten().collect()
